@@ -23,7 +23,7 @@ from symx.harness import Harness
 from symx import core
 from symx.core import sym_and, sym_or, sym_not, implies, SymInt, SymBool
 from ref import wasmsem, irsem
-from corpus import cprogs, irprogs
+from corpus import cprogs, irprogs, irnested
 from props import _tv
 
 PROPERTY = "C23"
@@ -39,6 +39,8 @@ BUF_ADDR = 0x6000          # caller buffers behind pointer arguments live here i
 BOUNDS = {
     "quick": {"programs": "every program of corpus/cprogs.py and 23 extra programs (props/C23.py EXTRA_PROGS: narrow / unsigned types, loops with "
                           "break / continue / early return, switch in loop) unoptimised and after optimize level 2; "
+                          "13 hand-written IR templates of nested structured control flow with 5-10 blocks (corpus/irnested.py: loop in if in "
+                          "loop, if-if-while with shared joins, sequential loops, early return in a nested loop, break + continue, ...); "
                           "IR CFG skeletons: all 44 with 2 and 3 blocks, a fixed (seed-independent) sample of 60 with 4 blocks",
               "symbolic": "all arguments (full range of the IR type), initial contents of globals (<= 32 bytes), 16 bytes behind each "
                           "pointer argument, 4 external call results",
@@ -111,9 +113,9 @@ LOOPY = ["while_sum", "for_break", "do_while", "nested_loops", "ifelse", "ternar
 
 def build(prog, opt):
     """-> (module for the reference, module for the compiler, entry name)"""
-    if prog.startswith("ir:"):
+    if prog.startswith("ir:") or prog.startswith("irn:"):
         from ppci.irutils import read_module
-        text = irprogs.source(prog)
+        text = irprogs.source(prog) if prog.startswith("ir:") else irnested.source(prog)
         return read_module(io.StringIO(text)), read_module(io.StringIO(text)), "f"
     src, entry = c_source(prog)
     ms = []
@@ -365,7 +367,7 @@ def jobs(tier, seed):
     import random
     n4 = list(irprogs.all_names(4))
     skel = list(irprogs.all_names(2)) + list(irprogs.all_names(3)) + (random.Random(0).sample(n4, 600)[:60] if tier == "quick" else n4)
-    for nm in skel:
+    for nm in irnested.names() + skel:
         js.append(("mk_ir2wasm", dict(prog=nm, opt=None)))
     only = os.environ.get("VERIF_ONLY")
     if only:
